@@ -442,8 +442,25 @@ def make_array(rng, shape, dec, tie):
             f[j] = -0.4
             c[i], f[i] = c[i], 0.4 + 0.2 - float(gen.pick(rng, [2.0 ** -45, 2.0 ** -48, 0.0]))   # = N + 0.6 - d vs N + 0.6
     with probes.quiet():
-        p = Phase(c.reshape(shape), f.reshape(shape))
+        p = as_view(rng, c.reshape(shape), f.reshape(shape), Phase)
     return p
+
+
+def as_view(rng, c, f, Phase, imaginary=False):
+    """The phase array either built directly or obtained as a view of another phase array (strided slice, transpose, reversed):
+    the same values through another memory history."""
+    k = 1j if imaginary else 1
+    how = int(gen._side_rng(rng).integers(8))
+    if c.ndim == 0 or how > 2:
+        return Phase(c * k, f * k)
+    if how == 0:      # every other element of a twice-as-long last axis
+        big_c = np.repeat(c, 2, axis=-1) + 17.0
+        big_f = np.repeat(f, 2, axis=-1) * 0.5
+        big_c[..., ::2], big_f[..., ::2] = c, f
+        return Phase(big_c * k, big_f * k)[..., ::2]
+    if how == 1:      # transpose of the transposed data
+        return Phase(np.ascontiguousarray(c.T) * k, np.ascontiguousarray(f.T) * k).T
+    return Phase(c[::-1].copy() * k, f[::-1].copy() * k)[::-1]
 
 
 def wl_order(ctx, idx, rng):
